@@ -402,3 +402,214 @@ Proof.
       * intros e He. apply Hu1. rewrite E. apply in_or_app. left; exact He.
       * intros r e Hlo Hhi He. apply (Ha1 r e); [lia|exact Hhi|]. rewrite E. apply latest_le_prefix. exact He.
 Qed.
+
+(* ---------- reload: loadFromDisk + replay ---------- *)
+Lemma seq_shift_map {B} (f : nat -> B) n lo : map f (seq (Datatypes.S lo) n) = map (fun i => f (Datatypes.S i)) (seq lo n).
+Proof. rewrite <- seq_shift, map_map. reflexivity. Qed.
+
+Lemma map_nth_skipn {A B} (g : A -> B) (d0 : B) : forall (l : list A) dn,
+  map (fun i => match nth_error l i with Some x => g x | None => d0 end) (seq dn (length l - dn)) = map g (skipn dn l).
+Proof.
+  induction l as [|x l IH]; intros dn.
+  - destruct dn; reflexivity.
+  - destruct dn as [|dn].
+    + cbn [length Nat.sub seq map skipn nth_error]. f_equal.
+      rewrite seq_shift_map. cbn [nth_error]. specialize (IH O). rewrite Nat.sub_0_r in IH. exact IH.
+    + cbn [length skipn]. replace (Datatypes.S (length l) - Datatypes.S dn)%nat with (length l - dn)%nat by lia.
+      rewrite seq_shift_map. cbn [nth_error]. apply IH.
+Qed.
+
+Lemma acct_at_firstn G bs dn r k : (r <= dn)%nat -> acct_at G (firstn dn bs) r k = acct_at G bs r k.
+Proof. intros H. unfold acct_at. rewrite firstn_firstn. replace (Nat.min r dn) with r by lia. reflexivity. Qed.
+
+Lemma params_spec_firstn supply0 bs dn r : (r <= dn)%nat -> (dn <= length bs)%nat ->
+  params_spec supply0 (firstn dn bs) r = params_spec supply0 bs r.
+Proof.
+  intros H Hd. destruct r as [|r]; [reflexivity|]. cbn [params_spec].
+  rewrite <- (firstn_skipn dn bs) at 2. rewrite nth_error_app1 by (rewrite firstn_length; lia). reflexivity.
+Qed.
+
+Lemma cache_init_get max (rows : table) k : NoDup (keys rows) ->
+  tget k (cache_init max rows) = tget k rows \/ tget k (cache_init max rows) = [].
+Proof.
+  intros _. unfold cache_init. generalize (firstn max (sorted_keys rows)) as ks.
+  induction ks as [|k0 ks IH]; [right; reflexivity|]. cbn [map tget].
+  destruct (N.eqb_spec k0 k) as [->|]; [left; reflexivity|exact IH].
+Qed.
+
+Lemma ins_key_in k l x : In x (ins_key k l) <-> x = k \/ In x l.
+Proof.
+  induction l as [|y l IH]; cbn [ins_key]; [cbn; intuition|].
+  destruct (k <? y); [cbn; intuition|]. destruct (N.eqb_spec k y); [subst; cbn; intuition|].
+  cbn [In]. rewrite IH. intuition.
+Qed.
+
+Fixpoint incN (l : list N) : Prop :=
+  match l with [] => True | x :: r => (forall y, In y r -> x < y) /\ incN r end.
+
+Lemma ins_key_inc k l : incN l -> incN (ins_key k l).
+Proof.
+  induction l as [|y l IH]; intros H; cbn [ins_key]; [cbn; split; [intros ? []|exact I]|].
+  destruct H as [H1 H2]. destruct (N.ltb_spec k y) as [Hlt|Hge].
+  - cbn [incN]. split; [|split; assumption]. intros z [<-|Hz]; [exact Hlt|specialize (H1 z Hz); lia].
+  - destruct (N.eqb_spec k y); [split; assumption|]. cbn [incN]. split; [|exact (IH H2)].
+    intros z Hz. apply ins_key_in in Hz as [->|Hz]; [lia|exact (H1 z Hz)].
+Qed.
+
+Lemma incN_NoDup l : incN l -> NoDup l.
+Proof.
+  induction l as [|x l IH]; intros H; [constructor|]. destruct H as [H1 H2].
+  constructor; [|exact (IH H2)]. intros Hin. specialize (H1 x Hin). lia.
+Qed.
+
+Lemma incN_firstn n l : incN l -> incN (firstn n l).
+Proof.
+  revert l. induction n as [|n IH]; intros l H; [exact I|]. destruct l as [|x l]; [exact I|].
+  destruct H as [H1 H2]. cbn [firstn incN]. split; [|exact (IH l H2)].
+  intros y Hy. apply H1. exact (In_firstn _ _ _ Hy).
+Qed.
+
+Lemma sorted_keys_inc (t : table) : incN (sorted_keys t).
+Proof.
+  unfold sorted_keys. induction (map fst t) as [|k l IH]; [exact I|]. cbn [fold_right]. apply ins_key_inc. exact IH.
+Qed.
+
+Lemma cache_init_nodup max (rows : table) : NoDup (keys (cache_init max rows)).
+Proof.
+  unfold cache_init, keys. rewrite map_map. cbn [fst]. rewrite map_id.
+  apply incN_NoDup. apply incN_firstn. apply sorted_keys_inc.
+Qed.
+
+(* replaying blocks over a state that satisfies the invariant for a prefix of the history *)
+Lemma inv_replay G supply0 : forall (tl : list oblock) (pre : list oblock) s,
+  Inv G supply0 pre s -> Forall block_ok tl ->
+  Inv G supply0 (pre ++ tl)
+      (fold_left (fun st br => new_block st (fst br) (rp_supply (snd br)) (rp_level (snd br)))
+                 (map (fun b => (ob_mods b, mkRP (ob_supply b) (ob_level b))) tl) s).
+Proof.
+  induction tl as [|b tl IH]; intros pre s Hinv Hok; cbn [map fold_left].
+  - rewrite app_nil_r. exact Hinv.
+  - inversion Hok as [|? ? Hb Hok']; subst. cbn [fst snd rp_supply rp_level].
+    replace (pre ++ b :: tl) with ((pre ++ [b]) ++ tl) by (rewrite <- app_assoc; reflexivity).
+    apply IH; [|exact Hok']. apply inv_new_block; assumption.
+Qed.
+
+Theorem inv_reload p G supply0 bs s s' :
+  Inv G supply0 bs s -> blocks_ok bs -> reload p s = Some s' -> Inv G supply0 bs s'.
+Proof.
+  intros Hinv Hok Hr. pose proof (inv_latest _ _ _ _ Hinv) as Hlat.
+  destruct Hinv as [dn hm H Hdb Hdn Hdl Hand Hacc [HH Hhm] Hpar Hdbp Hrnd Hrows Hcnd Hcache].
+  assert (Hdlen : length (o_deltas s) = (length bs - dn)%nat) by (rewrite Hdl, map_length, skipn_length; reflexivity).
+  unfold reload in Hr.
+  destruct (last (map (fun e => Some (fst e)) (o_dbparams s)) None) as [endRound|]; [|discriminate].
+  destruct (negb (endRound =? o_db s)); [discriminate|]. inversion Hr; subst s'. clear Hr.
+  (* the blocks to replay *)
+  assert (Hrep : combine (o_deltas s) (lastn (length (o_deltas s)) (o_params s)) =
+                 map (fun b => (ob_mods b, mkRP (ob_supply b) (ob_level b))) (skipn dn bs)).
+  { rewrite Hpar, lastn_map_seq by lia. rewrite Hdlen.
+    replace (hm + (Datatypes.S (length bs) - hm - (length bs - dn)))%nat with (Datatypes.S dn) by lia.
+    assert (Hps : map (params_spec supply0 bs) (seq (Datatypes.S dn) (length bs - dn)) =
+                  map (fun b => mkRP (ob_supply b) (ob_level b)) (skipn dn bs)).
+    { rewrite seq_shift_map. cbn [params_spec]. apply (map_nth_skipn (fun b => mkRP (ob_supply b) (ob_level b)) (mkRP 0 0)). }
+    rewrite Hps, Hdl. generalize (skipn dn bs) as l. induction l as [|b l IHl]; [reflexivity|]. cbn [map combine]. f_equal. exact IHl. }
+  rewrite Hrep.
+  rewrite <- (firstn_skipn dn bs) at 1. apply inv_replay.
+  2:{ unfold blocks_ok in Hok. rewrite <- (firstn_skipn dn bs) in Hok. apply Forall_app in Hok. exact (proj2 Hok). }
+  assert (Hfl : length (firstn dn bs) = dn) by (rewrite firstn_length; lia).
+  apply (mkInv _ _ _ _ dn H H); cbn [o_db o_deltas o_accts o_params o_rows o_dbparams o_cache].
+  - exact Hdb.
+  - lia.
+  - rewrite skipn_all2 by lia. reflexivity.
+  - constructor.
+  - intros k. reflexivity.
+  - split; lia.
+  - rewrite Hdbp, map_map. cbn [snd]. rewrite Hfl. apply map_ext_in. intros r Hr. apply in_seq in Hr.
+    symmetry. apply params_spec_firstn; lia.
+  - rewrite Hdbp. apply map_ext_in. intros r Hr. apply in_seq in Hr. f_equal.
+    symmetry. apply params_spec_firstn; lia.
+  - exact Hrnd.
+  - intros k. destruct (Hrows k) as (H1 & H2 & H3 & H4). repeat split; try assumption.
+    intros r Hlo Hhi. unfold tgt_at. rewrite acct_at_firstn by lia. apply H4; assumption.
+  - apply cache_init_nodup.
+  - intros k. destruct (Hrows k) as (H1 & H2 & H3 & H4).
+    destruct (cache_init_get (op_cachemax p) (o_rows s) k Hrnd) as [E|E]; rewrite E.
+    + split; [exact H3|]. intros r e Hlo Hhi He. pose proof (H4 r Hlo Hhi) as Hv.
+      unfold tgt_at in *. rewrite acct_at_firstn by lia.
+      rewrite <- Hv. unfold view. rewrite He. reflexivity.
+    + split; [intros ? []|intros ? ? _ _ Hc; discriminate].
+Qed.
+
+(* ---------- genesis ---------- *)
+Definition genesis_ok (G : list (N * oacct)) : Prop :=
+  NoDup (keys G) /\
+  forall k a, In (k, a) G -> is_online a = true ->
+    voting_empty (bdata_of a) = false /\ a_elig a = false /\ a_lastprop a = 0 /\ a_lasthb a = 0.
+
+Lemma genesis_rows_get G : NoDup (keys G) -> forall k,
+  NoDup (keys (genesis_rows G)) /\
+  tget k (genesis_rows G) = if is_online (gen_get k G) then [(0, genesis_bdata (gen_get k G))] else [].
+Proof.
+  intros Hnd k. unfold genesis_rows, gen_get.
+  assert (Gen : forall (l : list (N * oacct)) (t : table), NoDup (keys l) -> NoDup (keys t) ->
+            (forall x, In x (keys l) -> tget x t = []) ->
+            let t' := fold_left (fun t ka => if is_online (snd ka) then tset (fst ka) [(0, genesis_bdata (snd ka))] t else t) l t in
+            NoDup (keys t') /\
+            tget k t' = match aget k l with
+                        | Some a => if is_online a then [(0, genesis_bdata a)] else tget k t
+                        | None => tget k t
+                        end).
+  { induction l as [|[k0 a0] l IH]; intros t Hl Ht Hfresh; cbn [fold_left fst snd].
+    - split; [exact Ht|reflexivity].
+    - inversion Hl as [|? ? Hnin Hl']; subst. cbn [aget].
+      set (t1 := if is_online a0 then tset k0 [(0, genesis_bdata a0)] t else t).
+      assert (Ht1 : NoDup (keys t1)) by (unfold t1; destruct (is_online a0); [apply NoDup_tset|]; exact Ht).
+      destruct (IH t1 Hl' Ht1) as [G1 G2].
+      { intros x Hx. unfold t1. destruct (is_online a0); [|apply Hfresh; right; exact Hx].
+        rewrite tget_tset_other by (intros ->; exact (Hnin Hx)). apply Hfresh. right; exact Hx. }
+      split; [exact G1|]. rewrite G2. destruct (N.eqb_spec k0 k) as [->|Hne].
+      + rewrite (aget_notin k l Hnin). unfold t1. destruct (is_online a0); [apply tget_tset_same|reflexivity].
+      + unfold t1. destruct (aget k l) as [a|].
+        * destruct (is_online a); [reflexivity|]. destruct (is_online a0); [apply tget_tset_other; congruence|reflexivity].
+        * destruct (is_online a0); [apply tget_tset_other; congruence|reflexivity]. }
+  destruct (Gen G [] Hnd (NoDup_nil _) (fun _ _ => eq_refl)) as [G1 G2]. split; [exact G1|].
+  rewrite G2. destruct (aget k G) as [a|]; [destruct (is_online a); reflexivity|reflexivity].
+Qed.
+
+Theorem inv_init p G supply0 : genesis_ok G -> Inv G supply0 [] (ostate_init p G supply0).
+Proof.
+  intros [Hnd Hgen]. unfold ostate_init.
+  assert (Hrows : forall k, let es := tget k (genesis_rows G) in
+            sorted_desc es /\ wf_data es /\ upd_le es 0 /\ rows_acc G [] k es 0 0).
+  { intros k. destruct (genesis_rows_get G Hnd k) as [_ E]. cbn zeta. rewrite E.
+    unfold rows_acc, tgt_at, acct_at. cbn [firstn fold_left].
+    destruct (is_online (gen_get k G)) eqn:Eon.
+    - assert (Hin : In (k, gen_get k G) G).
+      { unfold gen_get in *. destruct (aget k G) as [a|] eqn:Ea; [|discriminate].
+        clear -Ea. induction G as [|[k2 a2] l IH]; [discriminate|]. cbn [aget] in Ea.
+        destruct (N.eqb_spec k2 k) as [->|]; [inversion Ea; left; reflexivity|right; exact (IH Ea)]. }
+      destruct (Hgen _ _ Hin Eon) as (Hve & He & Hlp & Hlh).
+      assert (Hgb : genesis_bdata (gen_get k G) = bdata_of (gen_get k G)).
+      { unfold genesis_bdata, bdata_of. rewrite He, Hlp, Hlh. reflexivity. }
+      rewrite Hgb. split; [split; [intros ? []|exact I]|]. split.
+      + intros e [<-|[]] Hv. cbn [snd] in *. rewrite Hve in Hv. discriminate.
+      + split; [intros e [<-|[]]; cbn; lia|].
+        intros r _ Hr. assert (r = 0) by lia. subst r. rewrite firstn_nil. cbn [fold_left]. unfold tgt. rewrite Eon. reflexivity.
+    - split; [exact I|]. split; [intros ? []|]. split; [intros ? []|].
+      intros r _ _. rewrite firstn_nil. cbn [fold_left]. unfold tgt. rewrite Eon. reflexivity. }
+  apply (mkInv _ _ _ _ O O O); cbn [o_db o_deltas o_accts o_params o_rows o_dbparams o_cache length].
+  - reflexivity.
+  - lia.
+  - reflexivity.
+  - constructor.
+  - intros k. reflexivity.
+  - split; lia.
+  - reflexivity.
+  - reflexivity.
+  - exact (proj1 (genesis_rows_get G Hnd 0)).
+  - intros k. exact (Hrows k).
+  - apply cache_init_nodup.
+  - intros k. destruct (Hrows k) as (H1 & H2 & H3 & H4).
+    destruct (cache_init_get (op_cachemax p) (genesis_rows G) k (proj1 (genesis_rows_get G Hnd 0))) as [E|E]; rewrite E.
+    + split; [exact H3|]. intros r e Hlo Hhi He. rewrite <- (H4 r Hlo Hhi). unfold view. rewrite He. reflexivity.
+    + split; [intros ? []|intros ? ? _ _ Hc; discriminate].
+Qed.
